@@ -173,7 +173,17 @@ def run_history(ptn, seed, quick, want_graphs=True):
         if kind_ == 'inplace' and target in bq and not bz.get(target, False):
             c, o = pool[target]
             bfix = (list(np.asarray(o.qD[0]).reshape(-1)[:1]) == bq[target][0]) and (list(np.asarray(o.qD[-1]).reshape(-1)[:1]) == bq[target][1])
-        t02.append(dict(ev='op', name=name, kind=kind_, target=int(target or 0), objs=objs, boundary_fixed=bool(bfix)))
+        if pool.get(target, ('', None))[0] == 'graph' or name.startswith('OpGraph.'):
+            rule = 'graph'
+        elif kind_ == 'inplace':
+            rule = 'inplace'
+        elif kind_ == 'pure':
+            rule = 'pure'
+        else:
+            rule = {'mps+': 'add', 'mps-': 'add', 'mpo+-': 'add', 'mpo@': 'mul', 'apply_operator': 'apply',
+                    'MPS.from_vector': 'from_vector'}.get(name, 'create')
+        t02.append(dict(ev='op', name=name, kind=kind_, rule=rule, target=int(target or 0), created=int(newname or 0),
+                        operands=[int(x) for x in operands], objs=objs, boundary_fixed=bool(bfix)))
         t19.append(dict(ev='call', name=name, kind=kind_, target=int(target or 0), created=int(newname or 0), operands=[int(x) for x in operands],
                         changed=[int(x) for x in changed], sharing=sharing_pairs(pool)))
         if newname and kind_ == 'fresh':
